@@ -392,7 +392,7 @@ Lemma drv_ok hr total c es cr cd ms cl v nl :
   slots es = length v -> nl <= SPECIAL_THRESHOLD ->
   (cl = 0 \/ cl = length v + specs es)%nat ->
   (length es <= total)%nat ->
-  exists c', do_record_validity c v nl = Ok c' /\ cinv hr true total c' (sv v nl es) cr cd ms (length v).
+  exists c', do_record_validity c v nl = Ok c' /\ cinv hr true total c' (sv v nl es) cr cd ms (length v + specs es).
 Proof.
   intros [Hrep Hdef Hsp Hlen Henc Hcr Hcd Hms] Hsl Hnl Hcl Htot.
   destruct Hdef as (j & Ed & Ld & Lsd).
@@ -419,7 +419,7 @@ Proof.
   - rewrite rev_involutive. eexists. split; [reflexivity|]. split; [|rewrite <- Ed; exact Ld].
     rewrite app_length, skipn_length, !rev_length, !map_length, sv_length. lia.
   - rewrite sv_specs. exact Hsp.
-  - reflexivity.
+  - rewrite Hsp. reflexivity.
   - apply sv_enc_ok; assumption.
 Qed.
 
@@ -729,7 +729,7 @@ Definition layer_pre (hr hd : bool) (total : nat) (r : raw) (es : list ent) (cr 
 Definition layer_len (r : raw) (st : astate) (cl : nat) : nat :=
   match r with
   | RValidity None _ => cl
-  | RValidity (Some v) _ => length v
+  | RValidity (Some v) _ => let '(es, _, _, _) := st in (length v + specs es)%nat
   | RFsl _ _ _ => cl
   | ROffsets _ _ _ _ _ => let '(es, _, _, _) := a_layer r st in length es
   end.
@@ -796,7 +796,7 @@ Proof.
       destruct (drv_ok true total c2 es (cr - 1) (cd - num_def_levels m) (ms ++ [m]) cl vs nl Hc2) as (c3 & E3 & Hc3);
         [congruence | exact Hnl | rewrite Hlv; exact Hcl | exact Hle |].
       rewrite E3. cbn [bind].
-      destruct (ro_tail_def_ok total c3 (sv vs nl es) (cr - 1) (cd - num_def_levels m) (ms ++ [m]) (length vs)
+      destruct (ro_tail_def_ok total c3 (sv vs nl es) (cr - 1) (cd - num_def_levels m) (ms ++ [m]) (length vs + specs es)%nat
                                (windows_len o) cr el n sp Hc3) as (c' & E' & Hc');
         [rewrite sv_slots; exact Hsl | exact Hn | rewrite sv_length; exact H1 | exact Hel | exact Htot
         | rewrite sv_specs; exact Hsp |].
@@ -1354,12 +1354,11 @@ Definition ulist_levels (m : meaning) (b' : N) : N * N * N :=   (* null_level, e
 
 Lemma step_offsets_def M items b' c' k u m mo es1 lens :
   let '(nl, el, b) := ulist_levels m b' in
-  let un := N.max nl el in
+  let un := N.max (N.max nl el) b' in
   let ml := un + reach mo in
   m_is_list m = true ->
   relu true true M items b' c' k u (so lens (c' + 1) el es1) ->
   nth_error M k = Some m -> skipn (S k) M = mo ->
-  b' <= un ->
   slots es1 = length lens -> so_el_ok el es1 lens ->
   Forall (lo_ok (c' + 1) nl un ml) es1 ->
   exists u', comp_unravel_offsets [u]
@@ -1367,10 +1366,11 @@ Lemma step_offsets_def M items b' c' k u m mo es1 lens :
                    if m_is_all_valid m then None else Some (slot_bits es1)) /\
              relu true true M items b (c' + 1) (S k) u' es1.
 Proof.
-  destruct (ulist_levels m b') as [[nl el] b] eqn:Elv. intros un ml Hm [Hrep Hdef Hhr Hhd Hl2r HM Hcdc Hcrc Hlay Hit] Hnth Hsk Hbun Hsl Helok Hok.
-  assert (Hfacts : un <= ml /\ nl <= un /\ el <= un /\ (nl = 0 \/ b' < nl) /\ (el = 0 \/ b' < el) /\ (el = 0 \/ el <> nl) /\ (m_is_all_valid m = false -> b = un) /\ un <= b /\ b' <= b).
-  { subst un ml. unfold ulist_levels in Elv. destruct m; cbn in Hm; try discriminate; inversion Elv; subst; cbn [m_is_all_valid]; repeat split; try lia; discriminate. }
-  destruct Hfacts as (F1 & F2 & F3 & F4 & F5 & F6 & F7 & F8 & F9).
+  destruct (ulist_levels m b') as [[nl el] b] eqn:Elv. intros un ml Hm [Hrep Hdef Hhr Hhd Hl2r HM Hcdc Hcrc Hlay Hit] Hnth Hsk Hsl Helok Hok.
+  assert (Hbun : b' <= un) by (subst un; lia).
+  assert (Hfacts : un <= ml /\ nl <= un /\ el <= un /\ (nl = 0 \/ b' < nl) /\ (el = 0 \/ b' < el) /\ (el = 0 \/ el <> nl) /\ un <= b /\ b' <= b).
+  { subst un ml. unfold ulist_levels in Elv. destruct m; cbn in Hm; try discriminate; inversion Elv; subst; cbn [m_is_all_valid]; repeat split; lia. }
+  destruct Hfacts as (F1 & F2 & F3 & F4 & F5 & F6 & F8 & F9).
   destruct (u_rep u) as [rs|] eqn:Er; [|discriminate].
   destruct (u_def u) as [ds|] eqn:Ed; [|discriminate].
   cbn [rel_rep rel_def] in Hrep, Hdef.
@@ -1528,7 +1528,7 @@ Definition ul_pre (hr hd : bool) (r : raw) (inner : list meaning) (es : list ent
       let lens := windows_len o in
       let es1 := match v with Some vs => sv vs nl es | None => es end in
       hr = true /\ slots es = length lens /\ so_el_ok el es1 lens /\
-      (m = AllValidList -> mlev inner = 0 /\ Forall (fun e => match e with Slot _ d => d = 0 | _ => True end) es) /\
+      (m = AllValidList -> Forall (fun e => match e with Slot _ d => d = 0 | _ => True end) es) /\
       (match v with Some _ => hd = true | None => True end) /\
       (hd = false -> m = AllValidList /\ Forall (fun l => 0 < l) lens /\ Forall plain es)
   end.
@@ -1561,7 +1561,7 @@ Lemma list_layer_step hr hd M items A mo m b' c' rc' nl el cd es1 lens :
   ulist_levels m b' = (nl, el, cd) ->
   Forall (eok1 (levels_to_rep M) cd (c' + 1) (rc' + (if m_real_list m then 1 else 0)) mo nl) es1 ->
   slots es1 = length lens -> so_el_ok el es1 lens ->
-  (m = AllValidList -> b' = 0 /\ Forall (fun e => match e with Slot _ d => d = 0 | _ => True end) es1) ->
+  (m = AllValidList -> Forall (fun e => match e with Slot _ d => d = 0 | _ => True end) es1) ->
   (hd = false -> m = AllValidList /\ Forall (fun l => 0 < l) lens /\ Forall plain es1) ->
   hr = true ->
   Forall (eok (levels_to_rep M) b' c' rc' (m :: mo)) (so lens (c' + 1) el es1) /\
@@ -1596,14 +1596,13 @@ Proof.
   - intros u1' Hu1'. destruct hd.
     + (* definition levels present *)
       pose proof (step_offsets_def M items b' c' (length A) u1' m mo es1 lens) as Hs. rewrite Hlv in Hs. cbn zeta in Hs.
-      assert (Hun : N.max nl el = cd).
+      assert (Hun : N.max (N.max nl el) b' = cd).
       { destruct (meaning_eqb m AllValidList) eqn:Em.
-        - assert (m = AllValidList) by (destruct m; cbn in Em; congruence). destruct (F5 H) as (-> & -> & -> & _). destruct (Hav H) as [-> _]. reflexivity.
-        - apply F4. intros ->. discriminate. }
+        - assert (m = AllValidList) by (destruct m; cbn in Em; congruence). destruct (F5 H) as (-> & -> & -> & _). lia.
+        - destruct F4 as [F4 _]; [intros ->; discriminate|]. lia. }
       apply Hs; try assumption.
       * rewrite HM. apply nth_error_mid.
       * rewrite HM. apply skipn_mid.
-      * rewrite Hun. exact F1.
       * rewrite Hun. eapply Forall_impl; [|exact Heok1]. intros e. apply lo_ok_of_eok1. reflexivity.
     + (* no definition levels at all *)
       destruct (Hnodef eq_refl) as (Hmav & Hpos & Hplain). destruct (F5 Hmav) as (-> & -> & -> & Hreal).
@@ -1701,7 +1700,7 @@ Proof.
         { subst es1. destruct v; [rewrite sv_slots|]; exact Hsl. }
         destruct (list_layer_step hr hd M items A mo m b' c' rc' nl el cd es1 (windows_len o) HM2 HA1 HA2 HA3 Hmlist Hulv Heok1 Hsl1 Helok)
           as [Heok' Hstep']; [| |exact Hhr|].
-        { intros Hmav. destruct (Hav Hmav) as [H1 H2]. split; [exact H1|].
+        { intros Hmav. pose proof (Hav Hmav) as H2.
           assert (v = None) by (destruct v; [|reflexivity]; exfalso; destruct (Hvsome eq_refl) as (_ & _ & H); rewrite Hmav in H; discriminate).
           subst es1. rewrite H. exact H2. }
         { intros Hhd. destruct (Hnd Hhd) as (H1 & H2 & H3). repeat split; [exact H1|exact H2|].
@@ -2112,31 +2111,7 @@ Qed.
 Definition cmeaning (c : call) : meaning := lm (raw_of_call c).
 Definition c_is_list (c : call) : bool := match c with COffsets _ _ => true | _ => false end.
 
-(* F21: the current_len bookkeeping of SerializerContext.  Some final current_len | None: the
-   debug_assert at repdef.rs:626 fails *)
-Fixpoint bk_ok (cs : list call) (cl sp : nat) : option nat :=
-  match cs with
-  | [] => Some cl
-  | CValidity v :: t => if Nat.eqb cl 0 || Nat.eqb cl (length v + sp) then bk_ok t (length v) sp else None
-  | CNoNull _ :: t => bk_ok t cl sp
-  | COffsets offs v :: t =>
-      let info := list_info offs v in
-      let spn := length (filter info_special info) in
-      let items := N.to_nat (last (prefix_sums 0 (map snd info)) 0) in
-      if match v with Some _ => Nat.eqb cl 0 || Nat.eqb cl (length info + sp) | None => true end
-      then bk_ok t (items + sp + spn) (sp + spn) else None
-  | CFsl _ _ _ :: _ => None
-  end.
-Definition Known_C27_list_of_nullable_struct_repdef (cs : list call) : bool :=
-  match bk_ok cs 0 0 with None => true | Some cl => Nat.eqb cl 0 end.
-
-(* unravel_offsets of an AllValidList layer with definition levels inside it *)
-Fixpoint Known_C27_allvalid_list_over_nullable_items (cs : list call) : bool :=
-  match cs with
-  | [] => false
-  | c :: t => (meaning_eqb (cmeaning c) AllValidList && (0 <? mlev (map cmeaning t)))
-              || Known_C27_allvalid_list_over_nullable_items t
-  end.
+Definition is_nonull (c : call) : bool := match c with CNoNull _ => true | _ => false end.
 
 (* levels_to_rep ignores AllValidList: a nullable item layer with a list outside and an all-valid list inside *)
 Fixpoint k6 (outside : bool) (cs : list call) : bool :=
@@ -2264,7 +2239,6 @@ Lemma glue_offsets hr hd total offs v es cr cd ms cl sp inner :
   (0 < cd -> hd = true) -> hr = true ->
   match v with Some _ => (cl = 0 \/ cl = length info + sp)%nat | None => True end ->
   specs es = sp -> (hd = false -> Forall plain es) ->
-  (m = AllValidList -> mlev inner = 0) ->
   (1 <= length es)%nat -> (length es <= total)%nat ->
   (length (st_es (a_layer r (es, cr, cd, ms))) <= total)%nat ->
   layer_pre hr hd total r es cr cd cl /\ ul_pre hr hd r inner es cd /\
@@ -2274,7 +2248,7 @@ Lemma glue_offsets hr hd total offs v es cr cd ms cl sp inner :
   (hd = false -> Forall plain (st_es (a_layer r (es, cr, cd, ms)))) /\
   length (st_es (a_layer r (es, cr, cd, ms))) = (items + sp + spn)%nat.
 Proof.
-  intros r info m items spn Hol Hvl Hmasked Hcd HcdT Hhd Hhr Hbk Hsp Hplain HK3 H1 Hle Htot.
+  intros r info m items spn Hol Hvl Hmasked Hcd HcdT Hhd Hhr Hbk Hsp Hplain H1 Hle Htot.
   assert (Hil : length info = slots es) by (apply list_info_length; assumption).
   remember (existsb info_empty info) as he eqn:Ehe.
   set (norm := prefix_sums 0 (map snd info)).
@@ -2338,7 +2312,7 @@ Proof.
   - (* ul_pre *)
     rewrite Er. cbn [ul_pre]. rewrite Elv. fold norm. rewrite Hlens. fold es1.
     split; [exact Hhr|]. split; [rewrite map_length; lia|]. split; [exact F3|]. split; [|split].
-    + intros Hmav. split; [apply HK3; exact Hmav|]. apply Hav in Hmav as [Hv0 Hhe0].
+    + intros Hmav. apply Hav in Hmav as [Hv0 Hhe0].
       (* a slot behind a null ancestor would be an empty valid list *)
       assert (Hvn : v = None) by (destruct v; [discriminate|reflexivity]).
       apply (no_masked_slots es info); [exact Hwf|subst info; rewrite Hvn; apply list_info_none_true|congruence|lia].
@@ -2371,30 +2345,31 @@ Lemma existsb_map_meaning (cs : list call) :
   existsb (fun m => meaning_eqb m AllValidList) (map cmeaning cs) = existsb (fun c' => meaning_eqb (cmeaning c') AllValidList) cs.
 Proof. induction cs as [|c t IH]; [reflexivity|]. cbn [map existsb]. rewrite IH. reflexivity. Qed.
 
-Lemma glue hr hd total : forall cs mask es cr cd ms cl sp outside outs clf,
+Lemma glue hr hd total : forall cs mask es cr cd ms cl sp outside outs,
   spec_layers mask cs = Some outs -> no_fsl cs = true ->
   slot_bits es = mask -> specs es = sp -> (outside = false -> sp = O) -> (hd = false -> Forall plain es) ->
   cd = mlev (map cmeaning cs) -> cd <= SPECIAL_THRESHOLD ->
   (0 < mlev (map cmeaning cs) -> hd = true) -> (0 < mlists (map cmeaning cs) -> hr = true) ->
-  bk_ok cs cl sp = Some clf ->
-  Known_C27_allvalid_list_over_nullable_items cs = false -> k6 outside cs = false ->
+  (cl = O \/ cl = length es) ->
+  k6 outside cs = false ->
   (1 <= length es)%nat ->
   (length (st_es (a_layers (map raw_of_call cs) (es, cr, cd, ms))) <= total)%nat ->
   layers_pre hr hd total (map raw_of_call cs) (es, cr, cd, ms) cl /\
   uls_pre hr hd (map raw_of_call cs) (es, cr, cd, ms) /\
   a_outs (map raw_of_call cs) (es, cr, cd, ms) = outs /\
-  layers_len (map raw_of_call cs) (es, cr, cd, ms) cl = clf /\
+  ((cl = length es \/ forallb is_nonull cs = false) ->
+   layers_len (map raw_of_call cs) (es, cr, cd, ms) cl = length (st_es (a_layers (map raw_of_call cs) (es, cr, cd, ms)))) /\
   slots (st_es (a_layers (map raw_of_call cs) (es, cr, cd, ms))) = spec_items (length mask) cs /\
   specs (st_es (a_layers (map raw_of_call cs) (es, cr, cd, ms))) = (sp + sumr (map raw_num_specials (map raw_of_call cs)))%nat.
 Proof.
-  induction cs as [|c cs IH]; intros mask es cr cd ms cl sp outside outs clf Hspec Hnf Hmask Hsp Hout Hplain Hcd HcdT Hhd Hhr Hbk HK3 HK6 H1 Htot.
-  - cbn [map layers_pre uls_pre a_outs layers_len a_layers fold_left st_es spec_items sumr fold_right] in *.
-    inversion Hspec; inversion Hbk; subst. rewrite slot_bits_length. repeat split; try reflexivity. lia.
+  induction cs as [|c cs IH]; intros mask es cr cd ms cl sp outside outs Hspec Hnf Hmask Hsp Hout Hplain Hcd HcdT Hhd Hhr Hcl HK6 H1 Htot.
+  - cbn [map layers_pre uls_pre a_outs layers_len a_layers fold_left st_es spec_items sumr fold_right forallb] in *.
+    inversion Hspec; subst. rewrite slot_bits_length. repeat split; try reflexivity; [|lia].
+    intros [H|H]; [exact H|discriminate].
   - subst sp. pose proof (no_fsl_raws _ Hnf) as Hraws. cbn [map] in Hraws. pose proof (Forall_inv_tail Hraws) as Hraws'.
     unfold no_fsl in Hnf. cbn [existsb] in Hnf. apply negb_true_iff, orb_false_iff in Hnf. destruct Hnf as [Hc Hnf].
     assert (Hnf' : no_fsl cs = true) by (unfold no_fsl; rewrite Hnf; reflexivity).
     cbn [map mlev mlists] in Hcd, Hhd, Hhr.
-    cbn [Known_C27_allvalid_list_over_nullable_items] in HK3. apply orb_false_iff in HK3 as [HK3a HK3].
     cbn [k6] in HK6. apply orb_false_iff in HK6 as [HK6a HK6].
     cbn [map] in Htot |- *. rewrite a_layers_cons in Htot |- *.
     pose proof (a_layers_mono _ Hraws' (a_layer (raw_of_call c) (es, cr, cd, ms))) as Hmono.
@@ -2405,7 +2380,7 @@ Proof.
       destruct (Nat.eqb (length v) (length mask)) eqn:El; [|discriminate]. apply Nat.eqb_eq in El.
       destruct (spec_layers (map2 andb mask v) cs) as [outs'|] eqn:Es; [|discriminate].
       cbn [option_map] in Hspec. injection Hspec as Hspec. subst outs.
-      cbn [bk_ok] in Hbk. destruct (Nat.eqb cl 0 || Nat.eqb cl (length v + specs es)) eqn:Ebk; [|discriminate].
+      assert (Ebk : (cl = 0 \/ cl = length v + specs es)%nat) by (destruct Hcl as [Hcl|Hcl]; [left; exact Hcl|right; lia]).
       cbn [cmeaning raw_of_call lm num_def_levels m_is_list] in Hcd, Hhd, Hhr.
       assert (Hhd1 : hd = true) by (apply Hhd; lia).
       assert (Hcdnz : mlev (map cmeaning cs) + 1 <> 0) by lia.
@@ -2420,37 +2395,36 @@ Proof.
       assert (A8 : 0 < mlists (map cmeaning cs) -> hr = true) by (intros H; apply Hhr; lia).
       assert (A12 : (1 <= length (sv v cd es))%nat) by (rewrite sv_length; exact H1).
       cbn [c_is_list] in HK6. rewrite orb_false_r in HK6.
-      destruct (IH (map2 andb mask v) (sv v cd es) cr (cd - 1) (ms ++ [NullableItem]) (length v) (specs es) outside outs' clf
-                   Es Hnf' A1 A2 Hout A4 A5 A6 A7 A8 Hbk HK3 HK6 A12 Htot) as (I1 & I2 & I3 & I4 & I5 & I6).
+      assert (A9 : ((length v + specs es)%nat = O \/ (length v + specs es)%nat = length (sv v cd es))) by (right; rewrite sv_length; lia).
+      destruct (IH (map2 andb mask v) (sv v cd es) cr (cd - 1) (ms ++ [NullableItem]) (length v + specs es)%nat (specs es) outside outs'
+                   Es Hnf' A1 A2 Hout A4 A5 A6 A7 A8 A9 HK6 A12 Htot) as (I1 & I2 & I3 & I4 & I5 & I6).
       cbn [layers_pre uls_pre a_outs layers_len layer_len]. cbn [a_layer a_validity layer_pre ul_pre a_out].
       rewrite map2_length in I5 by lia.
       split; [split; [|exact I1]|].
-      { split; [exact Hhd1|]. split; [lia|]. split; [exact HcdT|]. split; [|lia].
-        apply orb_true_iff in Ebk. destruct Ebk as [E|E]; [left|right]; apply Nat.eqb_eq in E; exact E. }
+      { split; [exact Hhd1|]. split; [lia|]. split; [exact HcdT|]. split; [exact Ebk|lia]. }
       split; [split; [|exact I2]|].
       { split; [exact Hhd1|].
         apply andb_false_iff in HK6a. destruct HK6a as [E|E]; [left; apply Hout; exact E|right].
         rewrite map_map. change (map (fun x => lm (raw_of_call x)) cs) with (map cmeaning cs).
         apply no_av_mrc. rewrite existsb_map_meaning. exact E. }
-      split; [rewrite A1, I3; reflexivity|]. split; [exact I4|]. split.
+      split; [rewrite A1, I3; reflexivity|]. split; [intros _; apply I4; left; rewrite sv_length; lia|]. split.
       { rewrite I5. cbn [spec_items]. destruct cs; [cbn [spec_items]; lia|reflexivity]. }
       rewrite I6. unfold sumr. cbn [map raw_num_specials raw_of_call fold_right]. lia.
     + (* add_no_null *)
       destruct (Nat.eqb n (length mask)) eqn:El; [|discriminate]. apply Nat.eqb_eq in El.
       destruct (spec_layers mask cs) as [outs'|] eqn:Es; [|discriminate].
       cbn [option_map] in Hspec. injection Hspec as Hspec. subst outs.
-      cbn [bk_ok] in Hbk.
       cbn [cmeaning raw_of_call lm num_def_levels m_is_list] in Hcd, Hhd, Hhr.
       cbn [raw_of_call a_layer a_validity] in Htot, Hmono |- *.
       cbn [c_is_list] in HK6. rewrite orb_false_r in HK6.
       assert (A5 : cd = mlev (map cmeaning cs)) by lia.
       assert (A7 : 0 < mlev (map cmeaning cs) -> hd = true) by (intros H; apply Hhd; lia).
       assert (A8 : 0 < mlists (map cmeaning cs) -> hr = true) by (intros H; apply Hhr; lia).
-      destruct (IH mask es cr cd (ms ++ [AllValidItem]) cl (specs es) outside outs' clf
-                   Es Hnf' Hmask eq_refl Hout Hplain A5 HcdT A7 A8 Hbk HK3 HK6 H1 Htot) as (I1 & I2 & I3 & I4 & I5 & I6).
+      destruct (IH mask es cr cd (ms ++ [AllValidItem]) cl (specs es) outside outs'
+                   Es Hnf' Hmask eq_refl Hout Hplain A5 HcdT A7 A8 Hcl HK6 H1 Htot) as (I1 & I2 & I3 & I4 & I5 & I6).
       cbn [layers_pre uls_pre a_outs layers_len layer_len]. cbn [a_layer a_validity layer_pre ul_pre a_out].
       split; [split; [exact I|exact I1]|]. split; [split; [exact I|exact I2]|].
-      split; [rewrite I3; reflexivity|]. split; [exact I4|]. split.
+      split; [rewrite I3; reflexivity|]. split; [intros H; apply I4; cbn [forallb is_nonull andb] in H; exact H|]. split.
       { rewrite I5. cbn [spec_items]. destruct cs; [cbn [spec_items]; lia|reflexivity]. }
       rewrite I6. unfold sumr. cbn [map raw_num_specials raw_of_call fold_right]. lia.
     + (* add_offsets *)
@@ -2463,9 +2437,7 @@ Proof.
       set (items := N.to_nat (last (prefix_sums 0 (map snd info)) 0)) in *.
       destruct (spec_layers (repeat true items) cs) as [outs'|] eqn:Es; [|discriminate].
       cbn [option_map] in Hspec. injection Hspec as Hspec. subst outs.
-      cbn [bk_ok] in Hbk. fold info in Hbk. fold items in Hbk.
       set (spn := length (filter info_special info)) in *.
-      destruct (match v with Some _ => Nat.eqb cl 0 || Nat.eqb cl (length info + specs es) | None => true end) eqn:Ebk; [|discriminate].
       set (m := cmeaning (COffsets offs v)) in *.
       assert (Hmlist : m_is_list m = true) by (subst m; cbn [cmeaning raw_of_call lm]; destruct (is_some v), (existsb info_empty (list_info offs v)); reflexivity).
       rewrite Hmlist in Hhr.
@@ -2484,8 +2456,8 @@ Proof.
       { destruct v; [apply Nat.eqb_eq in Hvl; lia|exact I]. }
       { rewrite Hmask. exact Hmasked. }
       { intros H. apply Hhd. lia. }
-      { destruct v; [|exact I]. apply orb_true_iff in Ebk. destruct Ebk as [E|E]; [left|right]; apply Nat.eqb_eq in E; exact E. }
-      { intros Hmav. fold m in Hmav. rewrite Hmav in HK3a. cbn [meaning_eqb andb] in HK3a. apply N.ltb_ge in HK3a. lia. }
+      { destruct v; [|exact I]. destruct Hcl as [Hcl|Hcl]; [left; exact Hcl|right].
+        assert (length info = slots es) by (apply list_info_length; [lia|apply Nat.eqb_eq in Hvl; lia]). lia. }
       fold info items spn in G3, G4, G5, G7. rewrite Hes' in G4, G5, G6, G7.
       assert (A5 : cd - num_def_levels m = mlev (map cmeaning cs)) by lia.
       assert (A6 : cd - num_def_levels m <= SPECIAL_THRESHOLD) by lia.
@@ -2496,8 +2468,9 @@ Proof.
       { pose proof (a_layers_mono [raw_of_call (COffsets offs v)] (Forall_cons _ (Forall_inv Hraws) (Forall_nil _)) (es, cr, cd, ms)) as H.
         unfold a_layers in H. cbn [fold_left] in H. rewrite Est in H. exact H. }
       assert (A12 : (1 <= length es')%nat) by lia.
-      destruct (IH (repeat true items) es' (cr - 1) (cd - num_def_levels m) (ms ++ [m]) (items + specs es + spn)%nat (specs es + spn)%nat true outs' clf
-                   Es Hnf' G4 G5 A3 G6 A5 A6 A7 A8 Hbk HK3 HK6 A12 Htot) as (I1 & I2 & I3 & I4 & I5 & I6).
+      assert (A9 : ((items + specs es + spn)%nat = O \/ (items + specs es + spn)%nat = length es')) by (right; symmetry; exact G7).
+      destruct (IH (repeat true items) es' (cr - 1) (cd - num_def_levels m) (ms ++ [m]) (items + specs es + spn)%nat (specs es + spn)%nat true outs'
+                   Es Hnf' G4 G5 A3 G6 A5 A6 A7 A8 A9 HK6 A12 Htot) as (I1 & I2 & I3 & I4 & I5 & I6).
       cbn [layers_pre uls_pre a_outs layers_len]. rewrite Est.
       assert (Hll : layer_len (raw_of_call (COffsets offs v)) (es, cr, cd, ms) cl = (items + specs es + spn)%nat).
       { transitivity (length (st_es (a_layer (raw_of_call (COffsets offs v)) (es, cr, cd, ms)))).
@@ -2506,7 +2479,7 @@ Proof.
       rewrite Hll.
       split; [split; [exact G1|exact I1]|]. split; [split; [|exact I2]|].
       { rewrite map_map. change (map (fun x => lm (raw_of_call x)) cs) with (map cmeaning cs). exact G2. }
-      split; [rewrite G3, I3, Hmask; reflexivity|]. split; [exact I4|]. split.
+      split; [rewrite G3, I3, Hmask; reflexivity|]. split; [intros _; apply I4; left; exact G7|]. split.
       { rewrite I5. cbn [spec_items]. fold info. fold items. rewrite repeat_length. destruct cs; reflexivity. }
       rewrite I6. unfold sumr. cbn [map fold_right]. cbn [raw_of_call raw_num_specials]. fold info. fold spn. lia.
 Qed.
